@@ -38,6 +38,33 @@ def truncate (b : Bytes) (n : Int) : Bytes := if n < b.length then b.take n.toNa
 
 def number (n : Int) : Bytes := intText n
 
+/-- `mid(pos, len)` (Qt 5 `QContainerImplHelper::mid`): `len < 0` means "to the end" -/
+def mid (b : Bytes) (pos len : Int) : Bytes :=
+  let n : Int := b.length
+  if pos > n then [] else
+  if pos < 0 then
+    if len < 0 ∨ len + pos ≥ n then b
+    else if len + pos ≤ 0 then [] else b.take (len + pos).toNat
+  else
+    let l : Int := if len < 0 ∨ len > n - pos then n - pos else len
+    (b.drop pos.toNat).take l.toNat
+
+/-- `indexOf(d, from)`: a negative `from` counts from the end -/
+def indexOfFrom (b d : Bytes) (frm : Int) : Int :=
+  let f : Int := if frm < 0 then max (frm + b.length) 0 else frm
+  if f > b.length then -1 else
+  match breakOn d (b.drop f.toNat) with
+  | some (a, _) => f + a.length
+  | none => -1
+
+/-! ### QList<QByteArray> -/
+
+def count (l : List Bytes) : Int := l.length
+/-- `l[i]` / `l.at(i)` for an index the code has checked to be in range -/
+def nth (l : List Bytes) (i : Int) : Bytes := l.getD i.toNat []
+/-- `takeFirst()` on a non-empty list -/
+def takeFirst (l : List Bytes) : Bytes × List Bytes := (l.headD [], l.tail)
+
 /-! ### enum codes (declaration order; checked against the C++ by `QhttpBridge.Sock.enum_codes`) -/
 
 def rcode : RState → Int | .headers => 0 | .data => 1 | .finished => 2
